@@ -40,13 +40,16 @@ def shards(tier, seed):
         out.append({"kind": "cuts", "streams": 3 if tier == "quick" else 40, "transport": ("pipe", "tcp")[i % 2]})
     out.append({"kind": "worker", "runs": 10 if tier == "quick" else 150})
     out.append({"kind": "late_new", "ks": [1, 2, 3] if tier == "quick" else [1, 2, 3, 5, 8, 13], "noise_runs": 30 if tier == "quick" else 600})
+    for part in range(2 if tier == "quick" else 4):
+        out.append({"kind": "finish_sweep", "ks": [1, 2, 3] if tier == "quick" else [1, 2, 3, 4, 6], "part": part, "parts": 2 if tier == "quick" else 4,
+                    "noise_runs": 20 if tier == "quick" else 400})
     for sp in ("popen", "socket", "via"):
         out.append({"kind": "kill", "spec": sp, "runs": 5 if tier == "quick" else 60})
     return out
 
 
 def run_shard(spec):
-    return {"cuts": run_cuts, "worker": run_worker, "kill": run_kill, "late_new": run_late_new}[spec["kind"]](spec)
+    return {"cuts": run_cuts, "worker": run_worker, "kill": run_kill, "late_new": run_late_new, "finish_sweep": run_finish_sweep}[spec["kind"]](spec)
 
 
 # ---------------------------------------------------------------------------
@@ -464,6 +467,55 @@ def run_late_new(spec):
                     break
             sp.shutdown(1)
         res.sample({"late_new_runs": len(todo), "lines": len(lines)})
+    finally:
+        pre.uninstall()
+    return res
+
+
+def run_finish_sweep(spec):
+    """the end of receiving itself, at line granularity: one pre-emption (or line noise) inside the code that wakes the
+    waiters, closes the channels and records why the connection ended, while several receivers and waitclose callers of
+    several channels are blocked - whoever is woken first must already find the complete picture"""
+    from execnet import gateway_base as gb
+    from vlib import imodel
+
+    res = Result()
+    rng = core.rng_for("C04f", spec["tier"], spec["seed"], spec["part"])
+    pre = imodel.Preempt(core.REPO_SRC)
+    pre.install()
+    try:
+        lines = imodel.function_lines(gb.BaseGateway._thread_receiver, gb.ChannelFactory._finished_receiving, gb.ChannelFactory._local_close,
+                                      gb.ChannelFactory._no_longer_opened, gb.Channel.waitclose, gb.Channel.receive, gb.Channel._getremoteerror)
+        todo = [(ln, k) for ln in lines for k in spec["ks"]]
+        todo = [t for i, t in enumerate(todo) if i % spec["parts"] == spec["part"]] + [(None, i) for i in range(spec["noise_runs"])]
+        for ln, k in todo:
+            if res.enough(6):
+                break
+            prog = gen_stream(rng, 400)
+            while len(prog["cids"]) < 3:
+                prog = gen_stream(rng, 400)
+            for c in prog["cids"]:
+                prog["modes"][c].update(mode=rng.choice(("receive", "receive", "callback")), attach="before", receivers=rng.choice((1, 2)),
+                                        waitclosers=rng.choice((1, 2)))
+            S = b"".join(codec.frame(*f) for f in prog["frames"])
+            cut = rng.randrange(len(S) + 1)
+            if ln is None:
+                pre.set_noise(rng.getrandbits(32), rng.choice((0.05, 0.2)))
+                label = f"end of receiving under line noise run {k}: cut={cut}/{len(S)}"
+            else:
+                pre.restart()
+                pre.set_sweep(ln[0], ln[1], k, stall=0.05)
+                label = f"end of receiving, stall at line {ln[1]} hit {k}: cut={cut}/{len(S)} frames={short([(c, i, len(p)) for c, i, p in prog['frames']], 160)}"
+            try:
+                run_one_cut(res, rng, prog, S, cut, "pipe", "both", label)
+            except BaseException as e:
+                res.violation(f"cut-run-raised:{type(e).__name__}", f"{label}: {e}")
+            pre.off()
+            res.count("finish_sweep_runs")
+            if ln is not None and pre.fired:
+                res.count("sweep_fired")
+            res.case(core.h64("finish_sweep", ln, k, cut))
+        res.sample({"finish_sweep_runs": len(todo), "lines": len(lines)})
     finally:
         pre.uninstall()
     return res
